@@ -271,7 +271,8 @@ def run(ctx):
     ctx.ob(R6, gt.qual, "pool default only when the request passed the sentinel", ok)
     uses_pool = [n for n in astq.walk_fn(gt.node) if isinstance(n, ast.Attribute) and astq.text(n) == "self.timeout"]
     ctx.ob(R6, gt.qual, "self.timeout is read exactly once", len(uses_pool) == 1)
-    ok = any("isinstance(timeout, Timeout)" in astq.text(n.test) and any("timeout.clone()" in astq.text(s) for s in n.body) and any("Timeout.from_float(timeout)" in astq.text(s) for s in n.orelse) for n in ifs)
+    ok = any(astq.text(astq.norm_if(n)[0]) == "isinstance(timeout, Timeout)" and any("timeout.clone()" in astq.text(s) for s in astq.norm_if(n)[1])
+             and any("Timeout.from_float(timeout)" in astq.text(s) for s in astq.norm_if(n)[2]) for n in ifs)
     ctx.ob(R6, gt.qual, "a Timeout is cloned, a number converted with from_float", ok)
 
     # ------------------------------------------------------------------ R7 timeout mapping
